@@ -681,9 +681,14 @@ Proof.
   - match goal with |- context [exec o ?x] => specialize (IHo x); destruct (exec o x) as [[s1 r1] t1] end.
     unfold st_of, frame in *; simpl in *. destruct IHo as [A1 [A2 [A3 [A4 [A5 [A6 A7]]]]]].
     rewrite A2, A3. simpl. rewrite N.pred_succ. intuition.
-  - match goal with |- context [exec o ?x] => specialize (IHo x); destruct (exec o x) as [[s1 r1] t1] end.
-    unfold st_of, frame in *; simpl in *. destruct IHo as [A1 [A2 [A3 [A4 [A5 [A6 A7]]]]]].
-    rewrite A4. simpl. rewrite key2_eqb_refl. intuition.
+  - destruct (mem_k2 (c, k) (t_pre s)) eqn:Hm.
+    + match goal with |- context [exec o ?x] => specialize (IHo x); destruct (exec o x) as [[s1 r1] t1] end.
+      unfold st_of, frame in *; simpl in *. try rewrite Hm in *.
+      destruct IHo as [A1 [A2 [A3 [A4 [A5 [A6 A7]]]]]]. rewrite A4, Hm. intuition.
+    + match goal with |- context [exec o ?x] => specialize (IHo x); destruct (exec o x) as [[s1 r1] t1] end.
+      unfold st_of, frame in *; simpl in *. try rewrite Hm in *. simpl in *.
+      destruct IHo as [A1 [A2 [A3 [A4 [A5 [A6 A7]]]]]].
+      rewrite A4. simpl. rewrite key2_eqb_refl. intuition.
   - match goal with |- context [exec o ?x] => specialize (IHo x); destruct (exec o x) as [[s1 r1] t1] end.
     unfold st_of, frame in *; simpl in *. destruct IHo as [A1 [A2 [A3 [A4 [A5 [A6 A7]]]]]].
     rewrite A5. simpl. rewrite N.pred_succ. intuition.
